@@ -1133,6 +1133,11 @@ func (sk *SpaceKeeper) ConfigureByPath(paths []string, sizes []int, execPlot, ex
 	if len(paths) == 0 || len(paths) != len(sizes) {
 		return failureReturn(ErrConfigInvalidPathSize)
 	}
+	for _, size := range sizes {
+		if size < int(poc.ProofTypeDefault.PlotSize(usableBitLength()[0])) {
+			return failureReturn(ErrConfigUnderSizeTarget)
+		}
+	}
 
 	// check paths
 	absDirs := make([]string, len(paths))
